@@ -5,7 +5,16 @@
   and reads `ANS <answer>`, then re-runs the (pure) case.
 -/
 import JS.Channels
+import JS.Chan.CLI
+import JS.Chan.SYS
 open JS JS.Codec
+
+/-- channels living in their own modules (they import JS.Channels) are dispatched here -/
+def dispatch (ch : String) (env : Env) (p : Json) : Except Query Json :=
+  match ch with
+  | "CLI" => JS.Chan.CLI.run env p
+  | "SYS" => JS.Chan.SYS.run env p
+  | _ => Channels.run ch env p
 
 partial def serve (hin hout : IO.FS.Stream) : IO Unit := do
   let line ← hin.getLine
@@ -20,7 +29,7 @@ partial def serve (hin hout : IO.FS.Stream) : IO Unit := do
     serve hin hout
   | some payload =>
     let rec loop (table : Table) (n : Nat) : IO Unit := do
-      match Channels.run ch (envOf table) payload with
+      match dispatch ch (envOf table) payload with
       | .ok r => hout.putStrLn ("OK " ++ encode r); hout.flush
       | .error q =>
         if n = 0 then hout.putStrLn "ERR too-many-asks"; hout.flush else
